@@ -6,46 +6,42 @@ C11: the operations above the hook — `mark_changed`, `SideState.clear`, `ignor
 namespace CS.State
 
 /-- invariant + number of entries -/
-def InvL (L : Nat) (st : St) : Prop := Inv st ∧ st.ents.length = L
+def InvL (L : Nat) (st : St) : Prop := Inv st ∧ st.ents.length = L ∧ st.moving = []
 
 /-- a hooked assignment as one step of a sequence -/
 theorem sideSet_keeps (cfg : Cfg) (fuel : Nat) (e : Nat) (s : Sd) (fv : FV) (L : Nat) (hlt : e < L) (G : St → Prop)
-    (hG : ∀ st, G st → InvL L st ∧ PathGuard cfg st e s fv) :
+    (hG : ∀ st, G st → InvL L st) :
     Tr G (sideSet cfg fuel e s fv) (fun _ st' => InvL L st') Inv := by
   apply Tr.intro_st; intro st1
-  apply Tr.with_pre (φ := G st1) (fun st ⟨h0, h⟩ => h0 ▸ h)
+  apply Tr.with_pre (φ := G st1) (fun st (h : st = st1 ∧ _) => h.1 ▸ h.2)
   intro hg
-  obtain ⟨⟨hi, hl⟩, hpg⟩ := hG st1 hg
-  refine (sideSet_inv cfg fuel e s fv st1 hi (hl ▸ hlt) hpg).conseq ?_ ?_ ?_
-  · rintro st ⟨h0, _⟩; exact h0
-  · exact fun _ st' h => ⟨h.1, h.2.trans hl⟩
-  · exact fun st' h => h.1
+  obtain ⟨hi, hl, hmv⟩ := hG st1 hg
+  refine (((sideSet_inv cfg fuel e s fv st1 hi (hl ▸ hlt) (by rw [hmv]; simp)).with_mov (movF_sideSet cfg fuel e s fv) [])).conseq ?_ ?_ ?_
+  · rintro st ⟨h0, _⟩; exact ⟨h0, h0 ▸ hmv⟩
+  · exact fun _ st' h => ⟨h.1.1, h.1.2.trans hl, h.2⟩
+  · exact fun st' h => h.1.1
 
 theorem plainRel_last (st : St) (c : Int) : PlainRel st { st with last := c } :=
-  ⟨rfl, fun s => by cases s <;> rfl, fun s => by cases s <;> rfl, rfl, fun _ _ => ⟨rfl, rfl, rfl⟩⟩
+  ⟨rfl, fun s => by cases s <;> rfl, fun s => by cases s <;> rfl, rfl, fun _ _ => ⟨rfl, rfl, rfl⟩, rfl⟩
 theorem plainRel_now (st : St) (c : Int) : PlainRel st { st with now := c } :=
-  ⟨rfl, fun s => by cases s <;> rfl, fun s => by cases s <;> rfl, rfl, fun _ _ => ⟨rfl, rfl, rfl⟩⟩
+  ⟨rfl, fun s => by cases s <;> rfl, fun s => by cases s <;> rfl, rfl, fun _ _ => ⟨rfl, rfl, rfl⟩, rfl⟩
 theorem plainRel_dirty (st : St) (d : List Nat) : PlainRel st { st with dirty := d } :=
-  ⟨rfl, fun s => by cases s <;> rfl, fun s => by cases s <;> rfl, rfl, fun _ _ => ⟨rfl, rfl, rfl⟩⟩
+  ⟨rfl, fun s => by cases s <;> rfl, fun s => by cases s <;> rfl, rfl, fun _ _ => ⟨rfl, rfl, rfl⟩, rfl⟩
 
-theorem InvL.plain {L st st'} (h : InvL L st) (hr : PlainRel st st') : InvL L st' := ⟨hr.inv h.1, hr.len.trans h.2⟩
-
-theorem pathGuard_falsy {cfg : Cfg} {st : St} {e : Nat} {s : Sd} {v : Option Path.Str} (hv : truthyS v = false) :
-    PathGuard cfg st e s (.path v) := by
-  intro ht; rw [hv] at ht; cases ht
+theorem InvL.plain {L st st'} (h : InvL L st) (hr : PlainRel st st') : InvL L st' := ⟨hr.inv h.1, hr.len.trans h.2.1, hr.mov.trans h.2.2⟩
 
 /-- state.py:1028-1038 `mark_changed` -/
 theorem markChanged_tr (cfg : Cfg) (fuel : Nat) (s : Sd) (e : Nat) (L : Nat) (hlt : e < L) :
     Tr (InvL L) (markChanged cfg fuel s e) (fun _ st' => InvL L st') Inv := by
   unfold markChanged
   apply Tr.getSt_bind; intro st0
-  refine Tr.bind (R := fun _ => InvL L) (sideSet_keeps cfg fuel e s _ L hlt _ (fun st ⟨_, h⟩ => ⟨h, trivial⟩)) (fun _ => ?_)
+  refine Tr.bind (R := fun _ => InvL L) (sideSet_keeps cfg fuel e s _ L hlt _ (fun st ⟨_, h⟩ => h)) (fun _ => ?_)
   refine Tr.bind (R := fun _ => InvL L) ?_ (fun _ => ?_)
   · unfold bumpPastLast
     apply Tr.getSt_bind; intro st1
     split
     · apply Tr.when
-      · intro _; exact sideSet_keeps cfg fuel e s _ L hlt _ (fun st ⟨_, h⟩ => ⟨h, trivial⟩)
+      · intro _; exact sideSet_keeps cfg fuel e s _ L hlt _ (fun st ⟨_, h⟩ => h)
       · rintro _ st ⟨_, h⟩; exact h
     · exact Tr.pure (fun st ⟨_, h⟩ => h)
   · apply Tr.modify
@@ -58,18 +54,17 @@ theorem markChanged_tr (cfg : Cfg) (fuel : Nat) (s : Sd) (e : Nat) (L : Nat) (hl
 theorem clearSide_tr (cfg : Cfg) (fuel : Nat) (e : Nat) (s : Sd) (L : Nat) (hlt : e < L) :
     Tr (InvL L) (clearSide cfg fuel e s) (fun _ st' => InvL L st') Inv := by
   unfold clearSide
-  have step : ∀ fv, (∀ st, PathGuard cfg st e s fv) → Tr (InvL L) (sideSet cfg fuel e s fv) (fun _ st' => InvL L st') Inv :=
-    fun fv hpg => sideSet_keeps cfg fuel e s fv L hlt _ (fun st h => ⟨h, hpg st⟩)
-  have hpn : ∀ st, PathGuard cfg st e s (.path none) := fun st => pathGuard_falsy rfl
-  refine Tr.bind (step _ (fun _ => trivial)) (fun _ => ?_)
-  refine Tr.bind (step _ (fun _ => trivial)) (fun _ => ?_)
-  refine Tr.bind (step _ (fun _ => trivial)) (fun _ => ?_)
-  refine Tr.bind (step _ (fun _ => trivial)) (fun _ => ?_)
-  refine Tr.bind (step _ (fun _ => trivial)) (fun _ => ?_)
-  refine Tr.bind (step _ hpn) (fun _ => ?_)
-  refine Tr.bind (step _ (fun _ => trivial)) (fun _ => ?_)
-  refine Tr.bind (step _ (fun _ => trivial)) (fun _ => ?_)
-  exact step _ (fun _ => trivial)
+  have step : ∀ fv, Tr (InvL L) (sideSet cfg fuel e s fv) (fun _ st' => InvL L st') Inv :=
+    fun fv => sideSet_keeps cfg fuel e s fv L hlt _ (fun st h => h)
+  refine Tr.bind (step _) (fun _ => ?_)
+  refine Tr.bind (step _) (fun _ => ?_)
+  refine Tr.bind (step _) (fun _ => ?_)
+  refine Tr.bind (step _) (fun _ => ?_)
+  refine Tr.bind (step _) (fun _ => ?_)
+  refine Tr.bind (step _) (fun _ => ?_)
+  refine Tr.bind (step _) (fun _ => ?_)
+  refine Tr.bind (step _) (fun _ => ?_)
+  exact step _
 
 /-- `ent.ignored = v` (state.py:355-362, 782-786) -/
 theorem ignoredState_inv (st : St) (e : Nat) (v : Ign) (L : Nat) (h : InvL L st) : InvL L (ignoredState st e v) := by
@@ -84,7 +79,7 @@ theorem ignoredState_inv (st : St) (e : Nat) (v : Ign) (L : Nat) (h : InvL L st)
       have hrel : ChgRel e st (((st.modSide e .L (fun x => { x with changed := .fls })).modSide e .R
           (fun x => { x with changed := .fls })).csDiscard e) :=
         ((chgRel_setChanged e .L .fls st).trans (chgRel_setChanged e .R .fls _)).trans (chgRel_csDiscard e _)
-      refine ⟨⟨hrel.idx h.1.1, hrel.pend h.1.2 ?_⟩, hrel.len.trans h.2⟩
+      refine ⟨⟨hrel.idx h.1.1, hrel.pend h.1.2 ?_⟩, hrel.len.trans h.2.1, hrel.mov.trans h.2.2⟩
       rintro ⟨s, h1, _⟩
       exfalso
       have hf : ∀ s', ((((st.modSide e .L (fun x => { x with changed := .fls })).modSide e .R
